@@ -8,7 +8,7 @@ PROPERTY = 'C12'
 LEVEL = 'exploration'
 WORKERS = 3
 RULE = ('grammars `cmd PRE(v1|...|vn)[SUF] next` (also through a definition, without PRE when a suffix is present, '
-        'two such words in sequence, and two alternative words of the same shape) whose value sets are drawn from random tries with prefix chains '
+        'two such words in sequence, two alternative words of the same shape, and the word as a later `||` branch) whose value sets are drawn from random tries with prefix chains '
         '(2-8 values, length 1-6) are compiled by the real binary and run in a real bash: every value typed as a '
         'complete word must be recognised (the next position offers `next`), every non-value must not, and every '
         'proper prefix of a value typed as the cursor word must offer exactly the values extending it. The case '
@@ -51,7 +51,7 @@ def make_case(r):
     vals = value_set(r)
     r.shuffle(vals)          # the order in which the grammar lists the values must not matter
     pre = r.choice(PRES)
-    shape = r.choice(['plain', 'plain', 'def', 'suffix', 'two', 'twins'])
+    shape = r.choice(['plain', 'plain', 'def', 'suffix', 'two', 'twins', 'later-branch'])
     suf = ''
     V = alt(*[lit(v) for v in vals])
     stmts = []
@@ -71,6 +71,12 @@ def make_case(r):
             pre = ''
             e = seq(('word', (V, lit(suf))), lit('next'))
         words_spec = [(pre, vals, suf)]
+    elif shape == 'later-branch':
+        # the word is the second or third `||` branch, behind plain literals that share no prefix with it
+        first = [lit('foobar'), lit('zz9')][:r.randint(1, 2)]
+        from ..gast import fb
+        e = seq(fb(*(first + [('word', (lit(pre), V))])), lit('next'))
+        words_spec = [(pre, vals, '')]
     elif shape == 'twins':
         # two alternative words of the same table shape (the second value set is the first one with its letters
         # renamed): emitters share one function per shape and must still keep each word's own texts
